@@ -6,7 +6,7 @@ seed=$1; id=$2; tier=${3:-quick}
 S=${TMPDIR:-/tmp}/verif-seedrun-$$
 trap 'rm -rf "$S" "$S.ev"' EXIT
 mkdir -p "$S"; rsync -a --exclude .git --exclude _seed /repo/ "$S/"
-(cd "$S" && patch -p1 -s < /verif/seeded/$seed/patch.diff) || { echo "patch failed"; exit 2; }
+(cd "$S" && patch -p1 -s < ${SEED_PATCH:-/verif/seeded/$seed/patch.diff}) || { echo "patch failed"; exit 2; }
 out=$(VERIF_REPO="$S" VERIF_DIR=/verif VERIF_EVIDENCE_DIR="$S.ev" ./bin/gosym check "$id" --tier "$tier" 2>&1)
 if echo "$out" | grep -q "^VIOLATION property=$id"; then echo "SEED $seed vs $id: DETECTED"; echo "$out" | grep '^VIOLATION' | cut -c1-300 | head -3
 else echo "SEED $seed vs $id: MISSED"; echo "$out" | tail -4 | cut -c1-300; fi
